@@ -250,6 +250,19 @@ MUTANTS = [
     ("dispatch_boundary_wrong_layer", "bempp_cl/api/operators/boundary/helmholtz.py", "from .modified_helmholtz import double_layer as _modified_double_layer", "from .modified_helmholtz import adjoint_double_layer as _modified_double_layer", 0, ["C05"]),
     ("dispatch_options_order", "bempp_cl/api/operators/boundary/helmholtz.py", "        [_np.real(wavenumber), _np.imag(wavenumber)],\n        \"helmholtz_double_layer\",", "        [_np.imag(wavenumber), _np.real(wavenumber)],\n        \"helmholtz_double_layer\",", 0, ["C05"]),
     ("potential_factory_kernel", "bempp_cl/api/operators/potential/maxwell.py", '"maxwell_magnetic_field",  # Assembly type', '"maxwell_electric_field",  # Assembly type', 0, []),
+    # rules added after the round-3 / round-4 seeds and the unread-function survey
+    ("assembler_interface_params_dropped", "bempp_cl/api/assembly/assembler.py", "        self._parameters = _api.assign_parameters(parameters)", "        self._parameters = _api.assign_parameters(None)", 0, ["C18"]),
+    ("assembler_interface_precision_pinned", "bempp_cl/api/assembly/assembler.py", "        self._precision = precision", "        self._precision = \"double\"", 0, ["C18"]),
+    ("assembler_default_device_always", "bempp_cl/api/assembly/assembler.py", "        if self._device_interface is None:\n            self._device_interface = bempp_cl.api.DEFAULT_DEVICE_INTERFACE",
+     "        self._device_interface = bempp_cl.api.DEFAULT_DEVICE_INTERFACE", 0, ["C18"]),
+    ("create_assembler_nonlocal_sparse", "bempp_cl/api/assembly/assembler.py", "    if identifier == \"default_nonlocal\":\n        return DenseAssembler(domain, dual_to_range, parameters)",
+     "    if identifier == \"default_nonlocal\":\n        return SparseAssembler(domain, dual_to_range, parameters)", 0, ["C18"]),
+    ("localised_space_order_dropped", "bempp_cl/api/space/space.py", "        .set_order(space.order)\n        .set_shapeset(space.shapeset.identifier)\n        .set_is_localised(True)", "        .set_shapeset(space.shapeset.identifier)\n        .set_is_localised(True)", 0, ["C04", "C09"]),
+    ("localised_space_multipliers_on_all", "bempp_cl/api/space/space.py", "    local_multipliers[space.support] = 1\n", "    local_multipliers[:] = 1\n", 0, ["C04", "C09"]),
+    ("bc_fan_cell_count_other_pole", "bempp_cl/api/grid/grid.py", "edge_lengths, vertex_edges2, bary_grid, local2global, 1.0, nc2, global_dof_index\n", "edge_lengths, vertex_edges2, bary_grid, local2global, 1.0, nc1, global_dof_index\n", 0, ["C10"]),
+    ("bc_fan_interior_helper_for_border_pole", "bempp_cl/api/grid/grid.py", "    if border_edges1 and not border_edges2:", "    if border_edges2 and not border_edges1:", 0, ["C10"]),
+    ("l2_norm_without_conjugate", "bempp_cl/api/assembly/grid_function.py", "        return np.sqrt(np.abs(vec.conjugate().T.dot(mass.dot(vec))))", "        return np.sqrt(np.abs(vec.T.dot(mass.dot(vec))))", 0, ["C13"]),
+    ("potential_rule_in_closure_global", "bempp_cl/core/numba_assemblers.py", "    def evaluator(x):\n        \"\"\"Actually evaluate the potential.\"\"\"\n", "    def evaluator(x):\n        \"\"\"Actually evaluate the potential.\"\"\"\n        quad_points, quad_weights = rule(parameters.quadrature.regular)\n", 0, ["C18"]),
 ]
 
 # behaviour-preserving rewrites: every listed check must stay silent (exit 0)
